@@ -1,0 +1,100 @@
+//go:build verif
+
+package gobinlog
+
+import (
+	"context"
+
+	"github.com/Breeze0806/gobinlog/internal/vspec"
+	"github.com/Breeze0806/gobinlog/replication"
+)
+
+// number of present columns among the first c
+func specPresentBefore(rs *replication.Rows, c int) int {
+	if c <= 0 {
+		return 0
+	}
+	p := specPresentBefore(rs, c-1)
+	if rs.DataColumns.Bit(c - 1) {
+		return p + 1
+	}
+	return p
+}
+
+// is column c present and not NULL in the after-image of the row?
+func specHasCell(rs *replication.Rows, row int, c int) bool {
+	return rs.DataColumns.Bit(c) && !rs.Rows[row].NullColumns.Bit(specPresentBefore(rs, c))
+}
+
+// offset of column c's cell inside the after-image
+func specImagePos(tc *tableCache, rs *replication.Rows, row int, c int) int {
+	if c <= 0 {
+		return 0
+	}
+	p := specImagePos(tc, rs, row, c-1)
+	if specHasCell(rs, row, c-1) {
+		return p + replication.SpecCellLen(rs.Rows[row].Data, p, tc.tableMap.Types[c-1], tc.tableMap.Metadata[c-1])
+	}
+	return p
+}
+
+func vc_getValuesFromRow_requires(tc *tableCache, rs *replication.Rows, rowIndex int) bool {
+	n := rs.DataColumns.Count()
+	return tc != nil && rs != nil && tc.tableMap != nil && tc.table != nil &&
+		rowIndex >= 0 && rowIndex < len(rs.Rows) &&
+		n >= 0 && n <= 4096 &&
+		len(tc.tableMap.Types) == n && len(tc.tableMap.Metadata) == n &&
+		vspec.Forall(0, n, func(c int) bool {
+			return !specHasCell(rs, rowIndex, c) ||
+				replication.SpecCellOK(rs.Rows[rowIndex].Data, specImagePos(tc, rs, rowIndex, c), tc.tableMap.Types[c], tc.tableMap.Metadata[c])
+		})
+}
+
+func vc_getValuesFromRow_loop1_inv(c int, valueIndex int, pos int, values *RowData, tc *tableCache, rs *replication.Rows, rowIndex int) bool {
+	return c >= 0 && c <= rs.DataColumns.Count() &&
+		valueIndex == specPresentBefore(rs, c) &&
+		pos == specImagePos(tc, rs, rowIndex, c) &&
+		values != nil && len(values.Columns) == c
+}
+
+func vc_getValuesFromRow_ensures_shape(tc *tableCache, rs *replication.Rows, rowIndex int, out *RowData, err error) bool {
+	if len(tc.table.Columns()) != rs.DataColumns.Count() {
+		return err != nil
+	}
+	return err == nil && out != nil && len(out.Columns) == rs.DataColumns.Count()
+}
+
+// ---- parseEvents: C04 "the position returned is the boundary after the last accepted transaction" ----
+
+// ghost: boundary after the last transaction the handler accepted (or the initial / rotated position)
+var vcAcc Position
+
+//verif:hook loop-entry parseEvents 1
+func vc_hook_loopentry_Streamer_parseEvents_1(pos Position) {
+	vcAcc = pos
+}
+
+//verif:hook callback-ok Streamer.sendTransaction
+func vc_hook_callback_ok_sendTransaction(tran *Transaction) {
+	vcAcc = tran.NextPosition
+}
+
+// end of an iteration: a rotation (format known, event not an XID) moves the boundary to its target
+//
+//verif:hook loop-step parseEvents 1
+func vc_hook_loopstep_Streamer_parseEvents_1(ev replication.BinlogEvent, format replication.BinlogFormat) {
+	if !format.IsZero() && !ev.IsFormatDescription() && !ev.IsXID() && ev.IsRotate() {
+		fn, off, err := ev.Rotate(format)
+		if err == nil {
+			vcAcc = Position{Filename: fn, Offset: off}
+		}
+	}
+}
+
+func vc_Streamer_parseEvents_loop1_inv(pos Position) bool {
+	return pos == vcAcc
+}
+
+func vc_Streamer_parseEvents_ensures_resume(s *Streamer, ctx context.Context, events <-chan replication.BinlogEvent, out Position, err *Error) bool {
+	return out == vcAcc
+}
